@@ -169,3 +169,31 @@ pub fn lincomb_boxed_monty_form(
     }
     ret
 }
+
+/// Verification hook: ONE pass of `impl_longa_monty_lincomb!` over all of `products` on a zeroed
+/// accumulator (no window splitting, no final subtraction); returns `(u, hi_carry)`.
+#[cfg(crypto_bigint_verif)]
+pub(crate) const fn verif_longa_monty_lincomb<const LIMBS: usize>(
+    products: &[(&MontyForm<LIMBS>, &MontyForm<LIMBS>)],
+    modulus: &Odd<Uint<LIMBS>>,
+    mod_neg_inv: Limb,
+) -> (Uint<LIMBS>, Limb) {
+    let mut u = Uint::<LIMBS>::ZERO;
+    let hi_carry =
+        impl_longa_monty_lincomb!(products, u.limbs, modulus.0.limbs, mod_neg_inv, LIMBS);
+    (u, hi_carry)
+}
+
+/// Verification hook: boxed twin of [`verif_longa_monty_lincomb`].
+#[cfg(all(crypto_bigint_verif, feature = "alloc"))]
+pub(crate) fn verif_longa_boxed_monty_lincomb(
+    products: &[(&BoxedMontyForm, &BoxedMontyForm)],
+    modulus: &Odd<BoxedUint>,
+    mod_neg_inv: Limb,
+) -> (BoxedUint, Limb) {
+    let nlimbs = modulus.0.nlimbs();
+    let mut u = BoxedUint::zero_with_precision(modulus.0.bits_precision());
+    let hi_carry =
+        impl_longa_monty_lincomb!(products, u.limbs, modulus.0.limbs, mod_neg_inv, nlimbs);
+    (u, hi_carry)
+}
